@@ -52,6 +52,8 @@ EucFails(e) ==
   \cup (IF o.d3b # o.d3 THEN {"Stable|euclidean_distance"} ELSE {})
   \cup (IF \E a \in 1..n : \E b \in 1..n : ~Close(o.d3far[a][b], o.d3[a][b], 1)
         THEN {"Translation|euclidean_distance"} ELSE {})
+  \cup (IF \E a \in 1..n : \E b \in 1..n : ~Close(o.d3far2[a][b], o.d3near2[a][b], 1)
+        THEN {"Translation|euclidean_distance(2^23 in one coordinate)"} ELSE {})
   \* Grid.node_number: the node reported for an integer query point is at minimal (squared) distance
   \cup (IF \E k \in 1..Len(o.queries) :
             LET r == o.nearest[k] + 1 IN
